@@ -188,6 +188,7 @@ class Monitor:
         self.genuine: dict[str, list[dict]] = {n: [] for n in world.nodes if n != "O"}
         self.extends_seen: dict[str, dict[int, dict]] = {n: {} for n in world.nodes if n != "O"}
         self.raw_data: list[bytes] = []
+        self.ends: list[dict] = []                           # responder-side location of every honestly established hop
         self.notes: Counter = Counter()
         self.pub2name = {n.my_peer.public_key.key_to_bin(): name for name, n in world.nodes.items()}
         self._last_join: dict[str, bytes] = {}
@@ -287,8 +288,13 @@ class Monitor:
         sel_name = self.pub2name.get(selected) if selected is not None else None
         genuine = False
         if att is not None and sel_name in self.genuine:
-            genuine = any(g["y"] == f["key"] and g["auth"] == f["auth"] and g["x_used"] == att["xeph"]
-                          for g in self.genuine[sel_name])
+            for g in self.genuine[sel_name]:
+                if g["y"] == f["key"] and g["auth"] == f["auth"] and g["x_used"] == att["xeph"]:
+                    genuine = True
+                    # the responder's end of this hop lives under the circuit id it answered with
+                    self.ends.append({"c": c, "index": pre, "node": sel_name, "cid": g["cid"], "where": where,
+                                      "flagged": False})
+                    break
         self.accept[(id(c), pre)] = {"selected": selected, "genuine": genuine, "reasons": reasons, "where": where}
 
     @staticmethod
@@ -348,9 +354,28 @@ class Monitor:
         for c in ovo.circuits.values():
             if all(c is not k for k in self.circuits):
                 self.circuits.append(c)
+        # both ends: while the selected peer keeps an entry for the circuit id it answered with, that entry's keys are
+        # the keys the originator accepted (at acceptance and after every later datagram)
+        for e in self.ends:
+            if e["flagged"] or e["index"] >= len(e["c"].hops):
+                continue
+            mine = fingerprint(e["c"].hops[e["index"]].keys)
+            ov = self.w.ov[e["node"]]
+            for table, entry in (("exit_sockets", ov.exit_sockets.get(e["cid"])), ("relay_from_to", ov.relay_from_to.get(e["cid"]))):
+                if entry is not None and fingerprint(entry.hop.keys) != mine:
+                    e["flagged"] = True
+                    self.flag("both-ends:responder-keys-differ",
+                              f"{e['node']}.{table}[{e['cid']}] holds other session keys than the originator's "
+                              f"hop {e['index']} at t={self.w.loop.time():.1f} ({e['where']}; the selected peer's own "
+                              f"answer was accepted)")
+                    break
         for c in self.circuits:
             snaps = self.snap.setdefault(id(c), [])
             hops = c.hops
+            if len({id(h) for h in hops}) < len(hops) and not any(k == "hop-list:same-hop-twice" for k, _ in self.viol):
+                names = [self.pub2name.get(h.public_key_bin, "?") for h in hops]
+                self.flag("hop-list:same-hop-twice", f"circuit #{self._cno(c)} lists the same hop object more than once: "
+                          f"{names} ({c.state}, goal {c.goal_hops} hops)")
             if len(hops) < len(snaps):
                 self.flag("established-hop:removed", f"circuit #{self._cno(c)} went from {len(snaps)} to {len(hops)} hops")
             for i, s in enumerate(snaps[:len(hops)]):
@@ -553,6 +578,9 @@ class Interceptor:
                 if m["site"] == "link0" and m["op"] in ("mitm", "answer_by") and src == self.pred_of(m["j"]) \
                         and dst == self.node_of(m["j"]) and n == m["c"] and cr is not None:
                     out = self._on_create(dg, f, cr, m)
+                elif m["site"] == "req0" and src == self.pred_of(m["j"]) and dst == self.node_of(m["j"]) \
+                        and n == m["c"] and out:
+                    out = self._net_op(out, m)         # the REQUEST itself is duplicated / replayed by the network
         elif kind == "cell:created":
             for m in self.plan:
                 if m["site"] == "link0" and src == self.node_of(m["j"]) and dst == self.pred_of(m["j"]) \
@@ -560,6 +588,13 @@ class Interceptor:
                     out = self._on_created(out, m, n)
         elif kind == "cell:enc":
             for m in self.plan:
+                if m["site"] == "reqenc" and out:
+                    # the encrypted extend for hop j on forward link l: O -> path[0] (l = 0) or path[l-1] -> path[l]
+                    lk = m["link"]
+                    if src == ("O" if lk == 0 else self.path[lk - 1]) and dst == self.path[lk] \
+                            and n == (m["j"] - (lk + 1)) * self.ncirc + m["c"]:
+                        out = self._net_op(out, m)
+                    continue
                 if m["site"] != "enc":
                     continue
                 i = m["link"]                    # link from path[i] towards the originator
@@ -616,6 +651,16 @@ class Interceptor:
             return [self.clone(dg0, cell(self.prefix, a0["cid"], True, f0[2], b"\x03" + build_answer_body(a0)), note="swap"),
                     self.clone(dg, cell(self.prefix, a["cid"], True, f[2], b"\x03" + build_answer_body(a)), note="swap"),
                     *out[1:]]
+        if op == "flipdup":
+            # one copy with a corrupted field and one genuine copy of the same answer, in either order
+            bad = dict(a)
+            apply_field_op(bad, dict(m, op="flip"))
+            bad_dg = self.clone(dg, cell(self.prefix, bad["cid"], True, f[2], b"\x03" + build_answer_body(bad)),
+                                note="flipdup")
+            first, second = (bad_dg, dg) if m["order"] == "corrupt-first" else (dg, bad_dg)
+            self.applied.append(f"link0:flipdup:{m['order']}")
+            self.hold(second, tuple(m["when"]))
+            return [first, *out[1:]]
         if op in ("flip", "set"):
             apply_field_op(a, m)
         elif op == "subst":
@@ -763,6 +808,14 @@ class Interceptor:
             a0["_target"] = t0
             self.applied.append(f"pred:swap:{m['fields']}")
             return [("extended", a0), (form, a), *sends[1:]]
+        if op == "flipdup":
+            bad = dict(a)
+            apply_field_op(bad, dict(m, op="flip"))
+            self.applied.append(f"pred:flipdup:{m['order']}")
+            form2 = m.get("form2", form)     # "created": the second copy goes out as a plaintext created cell, which
+            #                                  the originator's onion layer (already one hop longer) cannot filter out
+            pair = [(form, bad), (form2, a)] if m["order"] == "corrupt-first" else [(form, a), (form2, bad)]
+            return [*pair, *sends[1:]]
         if op in ("flip", "set"):
             apply_field_op(a, m)
         elif op == "subst":
@@ -972,9 +1025,39 @@ def net_ops(site: str, j: int, c: int, reduced: bool, **extra) -> list[dict]:  #
     return ops
 
 
+def request_ops(h: int, c: int, reduced: bool) -> list[dict]:
+    """Network duplication / late replay of the REQUESTS: each plaintext create and each encrypted extend cell."""
+    lags = [("sends", 0), ("t", 10.5)] if reduced else LAGS
+    ops = []
+    for j in range(h):
+        ops += [dict(site="req0", j=j, c=c, op="dup", when=wh) for wh in lags]
+        for link in range(j):
+            ops += [dict(site="reqenc", j=j, c=c, link=link, op="dup", when=wh) for wh in lags]
+    return ops
+
+
+def flipdup_ops(h: int, c: int) -> list[dict]:
+    """A copy with corrupted candidates_enc plus the genuine copy of the same answer (a pair, but a tiny family)."""
+    ops = []
+    for site, j in answer_sites(h):
+        for order in ("corrupt-first", "genuine-first"):
+            for i in (0, -1):
+                if site == "link0":
+                    ops += [dict(site=site, j=j, c=c, op="flipdup", field="cand", i=i, mask=1, order=order, when=wh)
+                            for wh in (("sends", 0), ("sends", 2), ("idle", 0))]
+                else:
+                    ops += [dict(site=site, j=j, c=c, op="flipdup", field="cand", i=i, mask=1, order=order, form2=f2)
+                            for f2 in ("extended", "created")]
+    return ops
+
+
 def site_ops(h: int, ncirc: int, cand_lens: dict, thorough: bool, reduced: bool = False) -> list[dict]:
     """Every single manipulation of a scenario."""
     ops: list[dict] = []
+    for c in range(ncirc if not reduced else 1):
+        ops += request_ops(h, c, reduced)
+        if not reduced:
+            ops += flipdup_ops(h, c)
     for c in range(ncirc if not reduced else 1):
         for site, j in answer_sites(h):
             ops += field_ops(site, j, c, h, cand_lens.get(j, 40), thorough, reduced)
@@ -1083,10 +1166,12 @@ def build_jobs(thorough: bool, seed: int) -> tuple[list, dict]:
         singles = site_ops(h, ncirc, lens, thorough)
         if spare:
             # with spares only what differs matters: the retry goes to an alternative peer
-            singles = [m for m in singles if m["op"] in ("drop", "late", "dup", "self_answer", "answer_by", "mitm", "subst")
+            singles = [m for m in singles if m["op"] in ("drop", "late", "dup", "flipdup", "self_answer", "answer_by", "mitm",
+                                                          "subst")
                        or (m["op"] in ("flip", "set") and (m.get("field") == "cand" or m.get("i") in (0, 15)))]
         if ncirc == 2 and not thorough:
             singles = [m for m in singles if m["op"] in ("swap", "delay") or (m["c"] == 1 and m["op"] in ("subst", "drop"))
+                       or (m["site"] in ("req0", "reqenc") and m["c"] == 1 and tuple(m["when"]) in (("sends", 0), ("t", 10.5)))
                        or (m["op"] == "flip" and m.get("i") == 0 and m["c"] == 1)]
         jobs += [(scn, [m]) for m in singles]
         n_pairs = 0
